@@ -72,6 +72,28 @@ def run(ctx):
         if not ok:
             ctx.violation('statement-containment', case, 'undamaged: %r\ndamaged: %r' % ([r[0] for r in base], [r[0] for r in got]) +
                           '\n' + repr(base)[:600] + '\n' + repr(got)[:600], KNOWN_PRED)
+        # ---- injection inside an @media block: only the damaged statement is dropped
+        inner = [r for r in sheet if r[0] == 'style'][:3] or [('style', [G.gen_selector(rng)], [G.gen_decl(rng)])]
+        iparts = [G.r_rule(sp, r) for r in inner]
+        k = rng.randrange(len(iparts) + 1)
+        g = rng.choice(GARBAGE_STMT + ['@import "x.css";', '@namespace "u";', '@charset "utf-8";', '@font-face{font-family:x}',
+                                       '@variables{a:b}', '@import url(y) print;'])
+        mtext = '@media print{' + ' '.join(iparts[:k] + [g] + iparts[k:]) + '} z{y:x}'
+        mbase = (('media', ((None, 'print', ()),), G.sem_sheet(inner)), G.sem_sheet([('style', [[('', ('z', []))]], [('y', [('', ('ident', 'x'))], False)])])[0])
+        case = {'text': mtext, 'garbage': g, 'level': 'media-block', 'at': k}
+        ctx.case(mtext)
+        texts.append(mtext)
+        try:
+            got = S.sem_sheet(parse(mtext))
+        except Exception as e:
+            ctx.violation('raises', case, '%s: %s' % (type(e).__name__, e), KNOWN_PRED)
+            got = None
+        if got is not None:
+            ok = len(got) == 2 and got[1] == mbase[1] and got[0][:2] == mbase[0][:2] and (
+                got[0][2] == mbase[0][2] or (len(got[0][2]) == len(mbase[0][2]) + 1 and got[0][2][:k] == mbase[0][2][:k]
+                                             and got[0][2][k + 1:] == mbase[0][2][k:]))
+            if not ok:
+                ctx.violation('media-block-containment', case, 'expected %r\ngot %r' % (mbase, got), KNOWN_PRED)
         # ---- declaration-level injection
         decls = [G.gen_decl(rng) for _ in range(rng.randrange(1, 5))]
         dparts = [G.r_decl(sp, d) for d in decls]
